@@ -635,8 +635,8 @@ int main(int argc, char** argv) {
     if (sys.lg_k == 1) { bigs.push_back("lg2p1/ext2/CU"); }
     if (sys.lg_k == 2) { bigs.push_back("lg2p1/ext2/W3U"); bigs.push_back("lg5p1/ext3/W4"); if (!q) { bigs.push_back("lg2p.5/ext12/U"); bigs.push_back("lg5p1/tot16/W4"); } }
     if (sys.lg_k == 5) { bigs.push_back("lg6p1/x30a/CU"); bigs.push_back("lg6p1/x30b/W4"); if (!q) { bigs.push_back("lg6p1/x70/U"); bigs.push_back("lg5p1/ext69/CO"); bigs.push_back("lg5p1/ext11/W4"); } }
-    // quick, lg_k=5 with the 30/30/70-entry operands: two forms per mode keep the fixpoint within the quick budget
-    sys.sub = sys.lg_k == 5 ? pick_submenu(menu, 1, (unsigned)(li * 2 + pi), bigs, q ? 2 : 3) : pick_submenu(menu, q ? 1 : 2, (unsigned)(li * 2 + pi), bigs);
+    // lg_k=5 with the 30/30/70-entry operands: two (rotating) forms per mode keep the fixpoint within the budgets
+    sys.sub = sys.lg_k == 5 ? pick_submenu(menu, 1, (unsigned)(li * 2 + pi), bigs, 2) : pick_submenu(menu, q ? 1 : 2, (unsigned)(li * 2 + pi), bigs);
     sys.bad.push_back(menu.bad[0]); sys.bad.push_back(menu.bad[5]); if (!q) { sys.bad.push_back(menu.bad[2]); sys.bad.push_back(menu.bad[6]); sys.bad.push_back(menu.bad[1]); }
     sys.ops = make_ops(sys.sub, sys.bad, true, q ? 3 : 7);
     sys.nm = "union/lgk" + str(sys.lg_k) + "/p" + str(sys.p);
